@@ -56,6 +56,8 @@ pub enum CpVariant {
     TinyGas,
     /// `block_transaction_size_limit` so small that at most one template fits.
     TinySize,
+    /// Gas and size limits out of the way: only the transaction-count limit can bind.
+    Huge,
 }
 
 #[derive(Clone)]
@@ -82,6 +84,8 @@ pub struct Universe {
     pub genesis_processed: Vec<TxId>,
     pub templates: Vec<Template>,
     pub relayer: BTreeMap<u64, Vec<Event>>,
+    /// many independent minimal transfers (each spends its own genesis coin), for the count limit
+    pub bulk: Vec<Transaction>,
 }
 
 fn sk(b: u8) -> SecretKey {
@@ -190,6 +194,10 @@ fn contract_in(c: ContractId) -> Input {
 
 impl Universe {
     pub fn new(variant: CpVariant, relayer_script: u8) -> Universe {
+        Self::new_bulk(variant, relayer_script, 0)
+    }
+
+    pub fn new_bulk(variant: CpVariant, relayer_script: u8, bulk_n: usize) -> Universe {
         let mut cp = ConsensusParameters::standard();
         cp.set_fee_params(FeeParameters::DEFAULT.with_gas_price_factor(1));
         let ska = sk(0xA1);
@@ -202,6 +210,10 @@ impl Universe {
             CpVariant::TinyGas => cp.set_block_gas_limit(45_000),
             CpVariant::TinySize => {
                 cp.set_block_transaction_size_limit(600).expect("valid size limit");
+            }
+            CpVariant::Huge => {
+                cp.set_block_gas_limit(u64::MAX / 4);
+                cp.set_block_transaction_size_limit(u64::MAX / 4).expect("valid size limit");
             }
         }
         let chain_id = cp.chain_id();
@@ -253,6 +265,20 @@ impl Universe {
         let r4 = msg(14, 999, vec![], 2);
         let m4 = msg(4, 3000, vec![0xEE; 4], 0);
         let genesis_msgs = vec![m1.clone(), m2.clone(), m3.clone(), m4.clone()];
+
+        // ---- bulk transfers ----------------------------------------------------
+        let mut bulk: Vec<Transaction> = Vec::with_capacity(bulk_n);
+        for i in 0..bulk_n {
+            let mut b = [0xB0u8; 32];
+            b[28..32].copy_from_slice(&(i as u32).to_be_bytes());
+            let id = UtxoId::new(Bytes32::from(b), 0);
+            let c: CompressedCoin = CompressedCoinV1 { owner: addr_a, amount: COIN, asset_id: base, tx_pointer: TxPointer::default() }.into();
+            genesis_coins.push((id, c));
+            let mut tb = TransactionBuilder::script(vec![], vec![]);
+            tb.with_params(cp.clone()).script_gas_limit(0).max_fee_limit(MAX_FEE);
+            tb.add_unsigned_coin_input(ska, id, COIN, base, TxPointer::default());
+            bulk.push(tb.finalize_as_transaction());
+        }
 
         // ---- templates ------------------------------------------------------
         let mut templates: Vec<Template> = vec![];
@@ -609,6 +635,7 @@ impl Universe {
             genesis_processed: vec![preprocessed],
             templates,
             relayer,
+            bulk,
         }
     }
 
